@@ -476,6 +476,25 @@ def apply_rewrites(text, counts):
     return text
 
 
+def _find_anchor(body, anchor, fn_name, counts):
+    """Position of a statement anchor in a function body. The anchor is the beginning of a statement; when the exact text is
+    gone (the statement was edited further right) the longest prefix of at least 6 characters that still identifies exactly
+    one place is used - the hint stays attached to the same statement. No unique prefix => lost anchor (undecided)."""
+    idxs = [mm.start() for mm in re.finditer(re.escape(anchor), body)]
+    if len(idxs) == 1:
+        return idxs
+    if len(idxs) == 0:
+        for k in range(len(anchor) - 1, 5, -1):
+            pre = anchor[:k]
+            hits = [mm.start() for mm in re.finditer(re.escape(pre), body)]
+            if len(hits) == 1:
+                counts["anchor-prefix-fallback"] = counts.get("anchor-prefix-fallback", 0) + 1
+                return hits
+            if len(hits) > 1:
+                break
+    raise Undecided("lost anchor: %r occurs %d times in fn %s" % (anchor, len(idxs), fn_name))
+
+
 def render_fn(item, cut, counts):
     sig = cut["sig"]
     body = cut["body"]
@@ -524,15 +543,11 @@ def render_fn(item, cut, counts):
         if anchor == "@@START":
             inserts.append((1, "\n/*@hint-begin*/\n" + text + "\n/*@hint-end*/\n"))
             continue
-        idxs = [mm.start() for mm in re.finditer(re.escape(anchor), body)]
-        if len(idxs) != 1:
-            raise Undecided("lost anchor: %r occurs %d times in fn %s" % (anchor, len(idxs), item["name"]))
+        idxs = _find_anchor(body, anchor, item["name"], counts)
         ls = body.rfind("\n", 0, idxs[0]) + 1
         inserts.append((ls, "/*@hint-begin*/\n" + text + "\n/*@hint-end*/\n"))
     for anchor, text in item["after"]:
-        idxs = [mm.start() for mm in re.finditer(re.escape(anchor), body)]
-        if len(idxs) != 1:
-            raise Undecided("lost anchor: %r occurs %d times in fn %s" % (anchor, len(idxs), item["name"]))
+        idxs = _find_anchor(body, anchor, item["name"], counts)
         le = body.find("\n", idxs[0])
         inserts.append((le + 1, "/*@hint-begin*/\n" + text + "\n/*@hint-end*/\n"))
     for pos, text in sorted(inserts, key=lambda x: -x[0]):
